@@ -139,4 +139,5 @@ class BaseSchema(ABC):
         """
 
     def __setstate__(self, state):
-        self.__dict__ = state
+        # copy.copy() passes the original's __dict__ itself: adopt its contents, not the dict
+        self.__dict__.update(state)
